@@ -263,6 +263,7 @@ def run(ctx):
             allsites.append(s)
     seen_keys = {}
     func_used = {}
+    used_shapes = set()   # table entries consumed by shape (renamed-local) matching
     for s in allsites:
         dbg = any(e in ("debug_assert", "debug_assert_eq", "debug_assert_ne") for e in s.expn)
         rule = r1d if dbg else r1
@@ -284,7 +285,7 @@ def run(ctx):
             counts["AUTO"] += 1
             rule.ok(key, detail, s.loc, how="AUTO")
             continue
-        ent = T.lookup(T.SITES, base, n)
+        ent = T.lookup(T.SITES, base, n, used_shapes)
         if ent is None and s.func.path in T.FUNCS:
             fe = T.FUNCS[s.func.path]
             kk = (s.func.path, s.kind)
@@ -299,7 +300,7 @@ def run(ctx):
                 rule.violation(key, "reviewed site whose recorded guard no longer holds: %s (review note: %s)" % ("; ".join(problems), ent["why"]), s.loc)
             else:
                 counts["TABLE"] += 1
-                rule.ok(key, "reviewed: " + ent["why"], s.loc, how="TABLE")
+                rule.ok(key, "reviewed: " + ent["why"] + (" [table entry matched up to local names %s]" % ent["renamed"] if ent.get("renamed") else ""), s.loc, how="TABLE")
             continue
         counts["open"] += 1
         rule.violation(key, "%s site not discharged: %s" % (s.kind, detail), s.loc)
@@ -326,7 +327,7 @@ def run(ctx):
         for s in call_sites(f, lambda pth, c: alloc_rx.search(pth) is not None):
             nall += 1
             base = "%s|alloc|%s" % (p, show(s.expr, 120))
-            ent = T.lookup(T.ALLOCS, base, 0)
+            ent = T.lookup(T.ALLOCS, base, 0, used_shapes)
             if ent is not None:
                 problems = check_requires(ctx, prog, ent.get("requires", []))
                 if problems:
@@ -358,7 +359,7 @@ def run(ctx):
                 base = "%s|ext|%s" % (p, model.short_callee(cp))
                 n = next_.get(base, 0)
                 next_[base] = n + 1
-                ent = T.lookup(T.EXTERNAL, base, 0) or (None if base in T.EXTERNAL_NO_WILDCARD else T.lookup(T.EXTERNAL, "*|ext|%s" % model.short_callee(cp), 0))
+                ent = T.lookup(T.EXTERNAL, base, 0, used_shapes) or (None if base in T.EXTERNAL_NO_WILDCARD else T.lookup(T.EXTERNAL, "*|ext|%s" % model.short_callee(cp), 0))
                 ext_sites.append((p, t, base, ent, kr, cp))
     callers_of = {}
     for (p, t, base, ent, kr, cp) in ext_sites:
